@@ -33,8 +33,9 @@ def run_action_open(cfg: OpenActionConfig) -> int:
 
     all_targets_in_line: list[str] = []
     found_primary_zid = False
+    # Extra blanks (e.g. two blanks after the note's prefix) are not words.
     for i, word in enumerate(
-        [w.strip("(),.?!;:") for w in zo_line.split(" ")]
+        [w.strip("(),.?!;:") for w in zo_line.split(" ") if w != ""]
     ):
         is_link = word.find("[[") >= 0 and word.find("]]") >= 0
         # Is this word a ZID that should be considered as a target? We consider
